@@ -151,6 +151,7 @@ class TermBuilder:
         self._bound: List[Dict[str, T]] = []
         self._comp_depth = 0
         self.mutated: Dict[str, List[ast.AST]] = {}
+        self.inplace_calls: Dict[str, List[ast.AST]] = {}
         self.assumptions: Set[str] = set()
         self._scan_mutations()
         self._init_ranks()
@@ -174,6 +175,17 @@ class TermBuilder:
             elif isinstance(n, ast.Call) and isinstance(n.func, ast.Attribute) and n.func.attr in ALL_MUTATOR_METHODS:
                 if isinstance(n.func.value, ast.Name):
                     self.mutated.setdefault(n.func.value.id, []).append(n)
+            if isinstance(n, ast.Call):
+                # library functions that write into an argument (np.fill_diagonal(x, ..), np.putmask(x, ..), out=x): the value of
+                # x after such a call is not what its definition says - and the term language has no model of the call
+                r = self.ana.res.fq_of_expr(self.fi, n.func)
+                if r and r[1] in NP_INPLACE:
+                    k = NP_INPLACE[r[1]]
+                    if k < len(n.args) and isinstance(n.args[k], ast.Name):
+                        self.inplace_calls.setdefault(n.args[k].id, []).append(n)
+                for kw_ in n.keywords:
+                    if kw_.arg == "out" and isinstance(kw_.value, ast.Name):
+                        self.inplace_calls.setdefault(kw_.value.id, []).append(n)
 
     def _init_ranks(self):
         # (a, b) = X.shape  =>  rank(X) = 2 ; X.shape[k] => rank >= k+1 (taken as k+1 minimum; only exact when unpacked)
@@ -298,6 +310,12 @@ class TermBuilder:
         return t
 
     def _name_term(self, name, at, defs: List[Node]) -> T:
+        if name in self.inplace_calls:
+            # written by a library call somewhere in the function: after that call the definition no longer describes the value
+            for c in self.inplace_calls[name]:
+                cn = self.cfg.node_of(c)
+                if cn is not None and cn.id != at.id and any(self._reaches(d, cn) for d in defs) and self._reaches(cn, at):
+                    return Sym(f"{name}@mutated")
         if len(defs) == 1:
             d = defs[0]
             if d.id in self.cuts:
@@ -324,6 +342,11 @@ class TermBuilder:
         if lag is not None:
             return lag
         return Sym(f"{name}@phi{at.id}")
+
+    def _reaches(self, a: Node, b: Node) -> bool:
+        if a.id == b.id:
+            return True
+        return self.cfg.paths_avoiding(a, set(), {b.id}, kinds=("n",)) is not None
 
     def _lagged(self, name, at: Node, defs: List[Node]) -> Optional[T]:
         """v = init before a range loop; inside the loop v is read first and unconditionally reassigned later in the body:
@@ -971,6 +994,8 @@ class TermBuilder:
                     pieces = tm.pieces_of(ft)
                     if len(pieces) > 1 and all(isinstance(v, Sym) and "." in v.name and "@" not in v.name for _g, v in pieces):
                         return PW([(g_, App(v.name, args, kw)) for g_, v in pieces])
+            if c.kind in ("external", "builtin"):
+                return tm.make_app(name, args, kw)       # zip(*pairs) and friends have a sequence-domain meaning
             return App(name, args, kw)
         if c.kind in ("internal",) and c.func is not None:
             if self._inlinable(c.func):
@@ -999,6 +1024,7 @@ class TermBuilder:
             if c.target == "builtins.dict" and not args and kw:
                 return App("dict", [Tup([Lit(k), v]) for k, v in kw.items()])
             t = tm.make_app(c.target, args, kw)
+            t = self._apply_mapped_functions(t, at)
             if isinstance(t, (Lst, Cat, Rep, Comp)):
                 self.seq_keys.add(t.key)
             if c.target in ("builtins.list", "builtins.sorted") or (c.target or "").startswith("itertools."):
@@ -1031,6 +1057,19 @@ class TermBuilder:
                     return out[0][1] if len(out) == 1 and out[0][0] == tm.TRUE else PW(out)
             return App("local:" + str(c.target), args, kw)
         return App("<call>", args, kw)
+
+    def _apply_mapped_functions(self, t: T, at) -> T:
+        """map(f, A, B) came back as [f(A[k], B[k]) for k]: when f is a package function, its application is interpreted like
+        a direct call (inlined unless it is an interface atom)."""
+        if isinstance(t, Comp) and isinstance(t.elt, App) and t.elt.fn in self.ana.prog.functions and not t.elt.kw:
+            g = self.ana.prog.functions[t.elt.fn]
+            from .resolve import Callee
+            try:
+                elt = self._call_with(Callee("internal", g.qualname, func=g), list(t.elt.args), {}, at)
+            except Opaque:
+                return t
+            return Comp(elt, t.var, t.iter, t.conds, t.kind)
+        return t
 
     def _arity(self, t: T) -> Optional[int]:
         if isinstance(t, Tup):
